@@ -13,7 +13,7 @@ TRUSTED = [
     "the only type with an Unwind() []error method in the universe is *ers.Stack, so the precedence of Unwind() over "
     "Unwrap() []error in Stack.Push / internal.Unwind is transcribed but only exercised through *ers.Stack",
     "concurrent Collector: the premise of Conc/LockedObject (Add / Len / Resolve / Iterator are each one critical section under ec.mu; Iterator is modelled as a snapshot taken under the lock) "
-    "is not proved here; it is exercised by the concurrent stress of this driver and checked syntactically by C13's skeleton; "
+    "is not proved here; it is exercised by the concurrent stress of this driver (every Iterator()/Len()/Resolve() snapshot taken while producers Add is checked for prefix consistency against atomic stamps, in a child process so that a runtime crash is a verdict) and checked syntactically by C13's skeleton; "
     "sync.Mutex is modelled, not verified",
 ]
 ASSUMPTIONS = [
